@@ -2254,7 +2254,9 @@ void apply_mutation(const Op& op)
         }
         if(texts.empty()) return;
         auto t = texts[(size_t)(op.uarg(0) % texts.size())];
-        static const char* repl[] = {"", " ", "0", "-1", "255", "65536", "4294967296", "18446744073709551616", "A", "AB", "\t", "1e9", "NaN", "0x1", "+1", "+0", "-0", "+", "-", "+18446744073709551615", "-9223372036854775809", " 1", "1 ", "1.0", "+A"};
+        static const char* repl[] = {"", " ", "0", "-1", "255", "65536", "4294967296", "18446744073709551616", "A", "AB", "\t", "1e9", "NaN", "0x1", "+1", "+0", "-0", "+", "-", "+18446744073709551615", "-9223372036854775809", " 1", "1 ", "1.0", "+A",
+                                     // white space that survives the XML parser (a blank PCDATA node would be dropped)
+                                     "&#32;", "&#9;", "&#x20;&#x20;", "&#10;", "<![CDATA[ ]]>", "<![CDATA[]]>", "<![CDATA[\t]]>", "&#32;1", "1&#32;", "&#0;", "&#xD;"};
         d.replace(t.first, t.second - t.first, n == "textdel" ? "" : repl[op.uarg(1) % (sizeof(repl) / sizeof(repl[0]))]);
     }
     else if(n == "linedup" || n == "lineswap" || n == "linedel")
